@@ -29,6 +29,11 @@ import numpy as np  # noqa: E402
 PROP = "C21"
 TOL = 1e-9
 PZXY = np.array([[0, 0, 1.0], [1, 0, 0], [0, 1, 0]])      # [z,x,y] = P [x,y,z]
+# the structure catalogue, the most demanding templates (screw axes, magnetic, several sites) first
+DWANN_ORDER = ["P3121_Te", "Fd-3m", "Im-3m_FM", "P4mm", "P63/mmc", "I4/mmm_AFM", "P2", "P-6m2", "kagome_noncollinear",
+               "F-43m", "P-6m2_FMx", "P321", "Pmm2", "P-4m2", "P6mm", "Pm-3m", "P4/mmm", "P422", "P3m1", "P222", "Pm",
+               "P-1", "P1", "Cmmm_oblique"]
+assert sorted(DWANN_ORDER) == sorted(s["name"] for s in gg.STRUCTURES)
 AXIAL = {"pz": (0, 0, 1), "pxy": (0, 0, 1), "p2": (1, 0, 0), "sp": (1, 0, 0)}
 
 
@@ -176,6 +181,12 @@ def rotator_case(ctx, rng, idx, state):
                 ctx.count("local_bases_in_domain")
                 ctx.nontrivial(("local_bases", shell, lR))
             calls.append((shell, R, b1, b2, Db))
+            # the same rotation seen from another pair of sites (other local frames): must not hit the same cache entry
+            b1b, b2b = random_basis(rng), random_basis(rng)
+            Dbb = np.array(OrbitalRotator()(shell, rot_cart=R, basis1=b1b, basis2=b2b))
+            ctx.count("rotator_calls")
+            check_matrix(ctx, shell, R, Dbb, dict(rot=lR, **wit), basis1=b1b, basis2=b2b, tag=",local_bases")
+            calls.append((shell, R, b1b, b2b, Dbb))
     # ---- the shared rotator: same calls, shuffled, twice; irot form; near-duplicates of cached rotations
     order = list(rng.permutation(len(calls))) + list(rng.permutation(len(calls)))
     for k in order:
@@ -215,8 +226,8 @@ def dwann_case(ctx, rng, idx, state):
     from wannierberri.symmetry.Dwann import Dwann
     from wannierberri.symmetry.projections import Projection
     j = idx
-    tpl = gg.STRUCTURES[j % len(gg.STRUCTURES)]
-    st = gg.structure(tpl["name"], rng)
+    name = DWANN_ORDER[j % len(DWANN_ORDER)]
+    st = gg.structure(name, rng)
     magnetic = st["magmoms"] is not None and rng.random() < 0.7
     spinor = bool(rng.random() < 0.4) or magnetic
     include_TR = True if magnetic else bool(rng.random() < 0.5)
@@ -262,6 +273,25 @@ def dwann_case(ctx, rng, idx, state):
             Tor[ip, isym] = np.round(positions[hit[0]] - q).astype(int)
     for ib, b in enumerate(basis_list):
         ctx.close("Projection.basis_list:not_orthogonal", b @ b.T, np.eye(3), rtol=TOL, scale=1.0, what=f"basis {ib}", witness=wit)
+    # local frames: the frame of site i is the image of the frame of site 0 under an operation taking site 0 to site i
+    # (rotate_basis=True) or the same frame everywhere; the requested z (x) axis is the third (first) row of the frame
+    # of site 0, possibly seen through an operation of its site group
+    for ib, b in enumerate(basis_list):
+        ctx.ev()
+        if rotate_basis:
+            ok = any(amap[0, isym] == ib and np.abs(b - basis_list[0] @ Rcart[isym].T).max() < 1e-8 for isym in range(nsym))
+        else:
+            ok = np.abs(b - basis_list[0]).max() < 1e-12
+        if not ok:
+            ctx.violation("Projection.basis_list!=image_of_site0_frame", f"site {ib}", dict(basis=b, basis0=basis_list[0], **wit))
+    for key, row in (("zaxis", 2), ("xaxis", 0)):
+        if key in axes:
+            a = np.array(axes[key]) / np.linalg.norm(axes[key])
+            ctx.ev()
+            ctx.count("projection_axes_checked")
+            if not any(amap[0, isym] == 0 and np.abs(basis_list[0][row] - Rcart[isym] @ a).max() < 1e-8 for isym in range(nsym)):
+                ctx.violation("Projection.basis_list!=requested_axes", f"{key}: row {row} of the frame of site 0 is "
+                              f"{basis_list[0][row]}, requested direction {a}", wit)
     # ---- choose an orbital inside the domain (span invariant under every site-to-site operation)
     orbital = None
     for c in cands:
@@ -400,7 +430,7 @@ def case(ctx, rng, idx, state):
 if __name__ == "__main__":
     harness.main(
         PROP, "exploration", case, setup_fn=setup,
-        tiers=dict(quick=dict(cases=96, shards=8, time=110), thorough=dict(cases=1920, shards=16, time=1100)),
+        tiers=dict(quick=dict(cases=144, shards=8, time=80), thorough=dict(cases=2880, shards=16, time=1100)),
         rule="two of three cases: OrbitalRotator on one full shell (s,p,d,f cycled) + two hybrids (all nine cycled) + "
              "';'-lists, rotations from {72 crystallographic O_h/D_6h operations, stabiliser of the hybrid span, continuous "
              "axial families, identity, inversion, Haar O(3)}, random (also left-handed) local bases; fresh rotator per "
